@@ -161,7 +161,7 @@ theorem toy_replaySafe (p : Nat → Bool) (app : Nat → Nat) : ReplaySafe (toyM
   commit_last := fun s i pre h v post heq => toy_commit_last p app s i pre h v post heq
   no_commit_height := fun s i h => toy_no_commit_height p app s i h
   votes_current_height := fun s i v h => toy_votes_height p app s i v h
-  unstarted_silent := fun s i h1 h2 => toy_unstarted_silent p app s i h1 h2
+  unstarted_silent := fun s i h1 h2 _ => toy_unstarted_silent p app s i h1 h2
   future_silent := fun s a h1 h2 => toy_future_silent p app s a h1 h2
   commute := by
     intro s a b hsb hba hns
@@ -238,7 +238,7 @@ theorem idle_replaySafe : ReplaySafe idleMachine where
     cases pre <;> simp at this
   no_commit_height := fun _ _ _ => rfl
   votes_current_height := by intro s i v hv; simp [idleMachine, effectsOf, votesOf] at hv
-  unstarted_silent := fun _ _ _ _ => ⟨rfl, rfl, rfl⟩
+  unstarted_silent := fun _ _ _ _ _ => ⟨rfl, rfl, rfl⟩
   future_silent := fun _ _ _ _ => ⟨rfl, rfl⟩
   commute := by
     intro s a b _ _ _
